@@ -421,6 +421,109 @@ def register(gen, T):
         out.append(T.footer("LayoutSites"))
         return "".join(out)
 
+
+    # ------------------------------------------------------------------------------------------
+    # LayoutPurity: the layout functions keep no state between two queries.  Unlike the other two generators this
+    # one *describes* what it finds (signatures, mutable locals, tokens of shared / interior-mutable state, the
+    # accessors called on the module) instead of refusing unknown text: a cache threaded through the functions, a
+    # `static`, a `RefCell` ... still translates, and then `Thm.C19.layout_functions_are_pure` no longer checks.
+    # ------------------------------------------------------------------------------------------
+    STATE_TOKENS = ["static", "thread_local", "lazy_static", "RefCell", "Cell", "UnsafeCell", "OnceCell", "OnceLock",
+                    "LazyLock", "LazyCell", "Mutex", "RwLock", "Atomic", "unsafe", "HashMap", "BTreeMap", "IndexMap",
+                    "borrow_mut", "Rc", "Arc", "Box", "transmute", "extern"]
+
+    def fn_items(text):
+        """every `fn name(params) -> ret {` item of the (comment-free) source: (name, [(pattern, type)], ret, body)"""
+        out = []
+        for m in re.finditer(r"\bfn\s+([A-Za-z0-9_]+)\s*(<[^>(]*>)?\s*\(", text):
+            i = m.end() - 1
+            j = matching(text, i)
+            params = []
+            for part in split_top(text[i + 1:j], ","):
+                part = normws(part).strip()
+                if not part:
+                    continue
+                if ":" in part:
+                    pat, ty = part.split(":", 1)
+                    params.append((pat.strip(), squeeze(ty)))
+                else:
+                    params.append((part, ""))      # `&self`, `&mut self`, `self`
+            k = j + 1
+            while k < len(text) and text[k] not in "{;":
+                k += 1
+            ret = squeeze(text[j + 1:k])
+            if ret.startswith("->"):
+                ret = ret[2:]
+            body = text[k + 1:matching(text, k)] if k < len(text) and text[k] == "{" else ""
+            out.append((m.group(1), params, ret, body, (m.group(2) or "")))
+        return out
+
+    @gen("LayoutPurity")
+    def gen_layout_purity():
+        lc = T.src("ir/src/layout_checker.rs")
+        ir_types = T.src("ir/src/ir_types.rs")
+        out = [T.header("LayoutPurity", ["ir/src/layout_checker.rs", "ir/src/ir_types.rs"])]
+        items = fn_items(lc)
+        if not items:
+            raise ExtractError("layout_checker.rs: no function found")
+
+        def pairs(ps):
+            return T.lean_list(f"({T.lean_str(a)}, {T.lean_str(b)})" for a, b in ps)
+        out.append("/-- every function of `layout_checker.rs`: (name, generics, [(parameter pattern, type)], return type) -/\n"
+                   "def functions : List (String × String × List (String × String) × String) := " +
+                   T.lean_list(f"({T.lean_str(n)}, {T.lean_str(squeeze(g))}, {pairs(ps)}, {T.lean_str(r)})"
+                               for n, ps, r, _, g in items) + "\n\n")
+        # parameters through which a callee could change something of the caller: `&mut` anywhere in the type, a
+        # `mut` pattern is only a local copy and is listed with the mutable locals
+        muts = [(n, a) for n, ps, _, _, _ in items for a, b in ps if "&mut" in b or "*mut" in b or "&mut" in a]
+        out.append("/-- parameters of a mutable reference / pointer type: (function, parameter) -/\n"
+                   "def mutableParameters : List (String × String) := " +
+                   T.lean_list(f"({T.lean_str(n)}, {T.lean_str(a)})" for n, a in muts) + "\n\n")
+        locs = []
+        for n, ps, _, body, _ in items:
+            names = [a for a, _ in ps if a.startswith("mut ")]
+            names += ["let " + normws(x) for x in re.findall(r"\blet\s+(\(?\s*mut\s+[A-Za-z0-9_]+(?:\s*,\s*mut\s+[A-Za-z0-9_]+)*\s*\)?)", body)]
+            # a `mut` binding inside a pattern (`Vector(ty, mut x)`, `Some(mut v)`, closures `|mut a|` ...)
+            names += ["pattern " + x for x in re.findall(r"[(,|]\s*(mut\s+[A-Za-z0-9_]+)\s*[,)|]", body)
+                      if ("let (" + x) not in " ".join(names)]
+            locs.append((n, sorted(set(names))))
+        out.append("/-- the mutable bindings of every function (parameters, `let mut`, `mut` inside patterns) -/\n"
+                   "def mutableLocals : List (String × List String) := " +
+                   T.lean_list(f"({T.lean_str(n)}, {T.lean_list(T.lean_str(x) for x in xs)})" for n, xs in locs) + "\n\n")
+        # a closure could capture a mutable local of its function (state without a parameter): where are closures?
+        clos = [n for n, _, _, body, _ in items
+                if re.search(r"(?:[(,=&{;]|\bmove|\breturn)\s*\|[^|]*\|", body) or re.search(r"(?:[(,=&{;]|\bmove)\s*\|\|", body)]
+        out.append("/-- the functions that contain a closure expression -/\n"
+                   "def functionsWithClosures : List String := " + T.lean_list(T.lean_str(n) for n in clos) + "\n\n")
+        found = [t for t in STATE_TOKENS if re.search(r"\b" + t + (r"[A-Za-z0-9]*" if t == "Atomic" else "") + r"\b", lc)]
+        out.append("/-- tokens of shared, global or interior-mutable state (and of containers that could hold a cache) that\n"
+                   "    occur anywhere in `layout_checker.rs`; looked for: " + ", ".join(STATE_TOKENS) + " -/\n"
+                   "def stateTokens : List String := " + T.lean_list(T.lean_str(t) for t in found) + "\n\n")
+        # what the file reads from the module
+        acc = set()
+        for m in re.finditer(r"\bmodule\s*\.\s*([a-z_]+)(\s*\.\s*([a-z_]+)\s*\(|\s*\[|\s*\()?", lc):
+            if m.group(3):
+                acc.add(m.group(1) + "." + m.group(3))
+            elif m.group(2) and m.group(2).strip() == "[":
+                acc.add(m.group(1) + "[]")
+            elif m.group(2):
+                acc.add(m.group(1) + "()")
+            else:
+                acc.add(m.group(1))
+        out.append("/-- everything `layout_checker.rs` touches of the module: registry fields, accessor calls, indexing -/\n"
+                   "def moduleAccesses : List String := " + T.lean_list(T.lean_str(a) for a in sorted(acc)) + "\n\n")
+        # macros that could hide state or calls
+        macros = sorted(set(re.findall(r"\b([a-z_]+)!\s*[(\[{]", lc)))
+        out.append("/-- the macros invoked in `layout_checker.rs` -/\n"
+                   "def macros : List String := " + T.lean_list(T.lean_str(a) for a in macros) + "\n\n")
+        # the type registry keeps its layers in a RefCell: the accessor the layout functions use only reads it
+        gtl = squeeze(impl_fn_body(ir_types, r"TypeRegistry", "get_type_layer"))
+        sig = re.search(r"pub\s+fn\s+get_type_layer\s*\(\s*&self\s*,\s*id\s*:\s*TypeId\s*\)\s*->\s*TypeLayer", ir_types)
+        out.append("/-- `TypeRegistry::get_type_layer(&self, id)` is `self.layers.borrow()[id.0 as usize]`: a read of the interned layers -/\n"
+                   f"def typeLayerIsARead : Bool := {'true' if (gtl == 'self.layers.borrow()[id.0asusize]' and sig) else 'false'}\n")
+        out.append(T.footer("LayoutPurity"))
+        return "".join(out)
+
     @gen("LayoutTables")
     def gen_layout_tables():
         ir_types = T.src("ir/src/ir_types.rs")
